@@ -458,34 +458,37 @@ theorem typeSection_roundtrip (m : RawModule) (tys : List FuncTy) (payload rest 
       bind_eq_of_ok (vec_enc (fun a b rest h => functionType_enc a b rest h) hb rest)]
     rfl
 
-/-- function section (type indices of a valid module are below the number of types) -/
+/-- `vec_enc` when the element reader is only known to succeed on the elements of this list -/
+theorem vec_enc_mem {α β : Type} {E : α → List UInt8 → Prop} {p : P β} {f : α → β} :
+    ∀ {as : List α} {body : List UInt8}, EncSeq E as body →
+      (∀ a ∈ as, ∀ b rest, E a b → p (b ++ rest) = .ok (f a, rest)) →
+      ∀ rest, vec p as.length (body ++ rest) = .ok (as.map f, rest) := by
+  intro as body h
+  induction h with
+  | nil => intro _ rest; rfl
+  | @cons a as b bs ha _ ih =>
+    intro hp rest
+    show (p >>= fun x => vec p as.length >>= fun xs => pure (x :: xs)) ((b ++ bs) ++ rest) = _
+    rw [List.append_assoc, bind_eq_of_ok (hp a (by simp) b (bs ++ rest) ha),
+      bind_eq_of_ok (ih (fun x hx => hp x (by simp [hx])) rest)]
+    rfl
+
+/-- function section (the type indices of a valid module are below the number of types; an index that is not
+    is rejected with `InvalidFunctionTypeIndex`) -/
 theorem functionSection_roundtrip (m : RawModule) (idxs : List Nat) (payload rest : List UInt8)
-    (h : EncVector (fun (i : { i : Nat // i < m.types.length }) b => ULeb 32 i.1 b) (idxs.attach.filterMap fun i =>
-      if hi : i.1 < m.types.length then some ⟨i.1, hi⟩ else none) payload)
-    (hvalid : ∀ i ∈ idxs, i < m.types.length) :
+    (h : EncVector (fun (i : Nat) b => ULeb 32 i b) idxs payload) (hvalid : ∀ i ∈ idxs, i < m.types.length) :
     functionSection m (payload ++ rest) = .ok ({ m with functions := idxs.map Function.empty }, rest) := by
   cases h with
   | @mk c body hc hb =>
     unfold functionSection
     rw [List.append_assoc, bind_eq_of_ok (u32_uleb _ hc _)]
-    have hentry : ∀ (a : { i : Nat // i < m.types.length }) (b rest : List UInt8), ULeb 32 a.1 b →
-        functionEntry m.types.length (b ++ rest) = .ok (Function.empty a.1, rest) := by
-      intro a b rest hb
+    have hentry : ∀ a ∈ idxs, ∀ (b rest : List UInt8), ULeb 32 a b →
+        functionEntry m.types.length (b ++ rest) = .ok (Function.empty a, rest) := by
+      intro a ha b rest hb
       unfold functionEntry
-      rw [bind_eq_of_ok (u32_uleb _ hb rest), ite_run, if_neg (by have := a.2; omega)]
+      rw [bind_eq_of_ok (u32_uleb _ hb rest), ite_run, if_neg (by have := hvalid a ha; omega)]
       rfl
-    rw [bind_eq_of_ok (vec_enc (f := fun a => Function.empty a.1) hentry hb rest)]
-    have hmap : (idxs.attach.filterMap fun i => if hi : i.1 < m.types.length then some (⟨i.1, hi⟩ : { i : Nat // i < m.types.length }) else none).map
-        (fun a => Function.empty a.1) = idxs.map Function.empty := by
-      clear hc hb hentry
-      induction idxs with
-      | nil => rfl
-      | cons i t ih =>
-        have hi : i < m.types.length := hvalid i (by simp)
-        simp only [List.attach_cons, List.filterMap_cons, hi, dite_true, List.map_cons, List.cons.injEq, true_and]
-        have := ih (fun j hj => hvalid j (by simp [hj]))
-        simpa [List.filterMap_map, Function.comp_def] using this
-    rw [hmap]
+    rw [bind_eq_of_ok (vec_enc_mem hb hentry rest)]
     rfl
 
 theorem limits_enc (l : Lim) (b rest : List UInt8) (h : EncLimits l b) :
@@ -599,11 +602,13 @@ theorem read_encode_roundtrip_partial (m : RawModule) (rest : List UInt8) :
       memorySection m (payload ++ rest) = .ok ({ m with memories := ls.map absMemLimits }, rest)) ∧
     (∀ ls payload, EncVector EncTableType ls payload →
       tableSection m (payload ++ rest) = .ok ({ m with tables := ls.map absTableLimits }, rest)) ∧
+    (∀ idxs payload, EncVector (fun (i : Nat) b => ULeb 32 i b) idxs payload → (∀ i ∈ idxs, i < m.types.length) →
+      functionSection m (payload ++ rest) = .ok ({ m with functions := idxs.map Function.empty }, rest)) ∧
     (∀ i payload, ULeb 32 i payload → startSection m (payload ++ rest) = .ok ({ m with start := some i }, rest)) ∧
     (∀ n payload, ULeb 32 n payload → dataCountSection m (payload ++ rest) = .ok (m, rest)) :=
   ⟨fun tys p h => typeSection_roundtrip m tys p rest h, fun ls p h => memorySection_roundtrip m ls p rest h,
-   fun ls p h => tableSection_roundtrip m ls p rest h, fun i p h => startSection_roundtrip m i p rest h,
-   fun n p h => dataCountSection_roundtrip m n p rest h⟩
+   fun ls p h => tableSection_roundtrip m ls p rest h, fun idxs p h hv => functionSection_roundtrip m idxs p rest h hv,
+   fun i p h => startSection_roundtrip m i p rest h, fun n p h => dataCountSection_roundtrip m n p rest h⟩
 
 /-! Non-vacuity -/
 set_option maxRecDepth 100000 in
